@@ -163,6 +163,42 @@ func c31(c *core.Ctx) {
 		}
 	}
 
+	// both level attributes are consulted before access is granted
+	{
+		isConsult := func(in ssa.Instruction) bool {
+			call, ok := in.(ssa.CallInstruction)
+			return ok && ssax.Callee(call) == getAttr
+		}
+		consults := liftedSites(accessFn, isConsult)
+		loops := ssax.Loops(accessFn)
+		bad := ""
+		for _, r := range ssax.Returns(accessFn) {
+			if r.Block() == accessFn.Recover {
+				continue
+			}
+			v := ssax.Strip(ssax.RetVal(r, 0))
+			if k, ok := v.(*ssa.Const); ok && k.Value != nil && k.Value.String() == "false" {
+				continue
+			}
+			for _, cs := range consults {
+				inLoop := false
+				for _, l := range loops {
+					if l.Blocks[cs.Block()] {
+						inLoop = true
+						// the consult is repeated per attribute: a result returned within an iteration (the
+						// return is dominated by that iteration's consult) skips the attributes not yet visited
+						if l.Blocks[r.Block()] || ssax.Dominates(cs, r) {
+							bad = "the result " + ssax.Path(v) + " is returned at " + pos(c, r) + " from inside the loop over the level attributes: the attributes not yet visited are never consulted"
+						}
+					}
+				}
+				if !inLoop && !ssax.Dominates(cs, r) {
+					bad = "the result " + ssax.Path(v) + " returned at " + pos(c, r) + " is not preceded by the level check at " + pos(c, cs)
+				}
+			}
+		}
+		c.Ob("C31.failclosed", fname(accessFn)+"·access is granted only after every level attribute was consulted", c.P.Pos(accessFn.Pos()), bad == "" && len(consults) > 0, orOK(bad, "every return that can be true lies behind all level checks (outside the loop over the attributes)"))
+	}
 	// fail-closed
 	{
 		for _, call := range ssax.CallsTo(accessFn, getAttr) {
@@ -472,6 +508,30 @@ func c33(c *core.Ctx) {
 	c.Rule("C33.fields", "suitableRef consults all of BrowseDirection, ReferenceTypeID, IncludeSubtypes and NodeClassMask of the request, and the reference's IsForward, ReferenceTypeID and NodeClass, before returning true", 1)
 
 	c33Subtypes(c)
+	c.Rule("C33.nullref", "suitableRefType answers `true` without looking at the reference only for the null NodeID: every constant-true return is on the true edge of a (*NodeID).Equal call (the all-types shortcut compares the requested type with i=0 in namespace 0; a weaker test such as IntID() == 0 switches the filter off for every string / GUID / opaque reference type id)", 1)
+	if srt := fn(c, "server", "", "suitableRefType"); srt != nil {
+		n := 0
+		for _, r := range ssax.Returns(srt) {
+			k, ok := ssax.Strip(ssax.RetVal(r, 0)).(*ssa.Const)
+			if !ok || k.Value == nil || k.Value.String() != "true" {
+				continue
+			}
+			n++
+			trues, _ := ssax.BoolFactsAt(r)
+			byEqual := false
+			for _, t := range trues {
+				if call, isCall := ssax.Strip(t).(*ssa.Call); isCall {
+					if cal := ssax.Callee(call); cal != nil && cal.Name() == "Equal" {
+						byEqual = true
+					}
+				}
+			}
+			c.Ob("C33.nullref", fname(srt)+"·return true", pos(c, r), byEqual, "on the true edge of a NodeID.Equal comparison: "+boolStr(byEqual))
+		}
+		if n == 0 {
+			c.Ob("C33.nullref", fname(srt)+"·return true", c.P.Pos(srt.Pos()), true, "no constant-true shortcut")
+		}
+	}
 	impls := nameSpaceImpls(c, "Browse")
 	c.Count("NameSpace.Browse implementations", len(impls))
 	for _, f := range impls {
@@ -647,6 +707,28 @@ func c34(c *core.Ctx) {
 	c.Rule("C34.serial", "handleService (which runs every Read/Write handler) is called only synchronously from monitorConnections — never from a `go` statement, a per-connection goroutine or another root — and monitorConnections is started exactly once, in Start", 2)
 	c.Rule("C34.handlers", "no function reachable from a registered handler starts a goroutine that writes node value storage ((*Node).SetAttribute, Node.val, MapNamespace.Data); client-visible writes stay on the single dispatcher goroutine (notification reads from other goroutines are C36's concern)", 2)
 
+	c.Rule("C34.applied", "(*Node).SetAttribute(Value, v) returns nil only after it has stored the new value function: there is no success path that leaves the old value in place (such a write is acknowledged Good and every later read contradicts it)", 1)
+	if sa := fn(c, "server", "Node", "SetAttribute"); sa != nil {
+		valF := field(c, "server", "Node", "val")
+		attrF := field(c, "server", "Node", "attr")
+		isStoreVal := func(in ssa.Instruction) bool {
+			switch x := in.(type) {
+			case *ssa.Store:
+				if fa, ok := x.Addr.(*ssa.FieldAddr); ok && (fieldOf(fa) == valF) {
+					return true
+				}
+			case *ssa.MapUpdate:
+				return loadedField(x.Map).f == attrF
+			}
+			return false
+		}
+		isOKRet := func(in ssa.Instruction) bool {
+			r, ok := in.(*ssa.Return)
+			return ok && in.Block() != sa.Recover && len(r.Results) > 0 && ssax.IsNil(ssax.RetVal(r, len(r.Results)-1))
+		}
+		miss, tr := ssax.Reach(sa, nil, isOKRet, isStoreVal, nil)
+		c.Ob("C34.applied", fname(sa)+"·nil result implies the value was stored", c.P.Pos(sa.Pos()), !miss, "a path returns nil without having stored the value / attribute: "+boolStr(miss), trace(c, tr)...)
+	}
 	c.Rule("C34.batch", "in the Read and Write handlers every element of the request array is performed before the response is built: the loop over NodesToRead / NodesToWrite is left only through its header or a return, never by a break that leaves later elements with their pre-allocated (Good) status and no effect", 2)
 	batchLoops(c, "C34.batch", map[string]bool{"Read": true, "Write": true})
 
